@@ -340,77 +340,102 @@ def takeString : List Ch → List B × List Ch
 
 def lastLine (consumed : List Ch) (dflt : Nat) : Nat := match consumed.getLast? with | some c => c.2 | none => dflt
 
+/-- the directives -/
+inductive Dir where
+  | ifdef | ifndef | else_ | endif | define | undef | pragma | include | unknown
+  deriving DecidableEq, Repr
+
+/-- the directive a (capitalised) word behind `#` names -/
+def classify (inst : List B) : Dir :=
+  if inst == n!"IFDEF" then .ifdef else if inst == n!"IFNDEF" then .ifndef else if inst == n!"ELSE" then .else_
+  else if inst == n!"ENDIF" then .endif else if inst == n!"DEFINE" then .define else if inst == n!"UNDEF" then .undef
+  else if inst == n!"PRAGMA" then .pragma else if inst == n!"INCLUDE" then .include else .unknown
+
+/-- position of the main loop: what is left of the file, whether only blanks were seen since the beginning of
+    the line, and the reader's line counter -/
+abbrev Pos := List Ch × Bool × Nat
+
 mutual
 /-- `parse_file` -/
 def runFile (e : Env) : Nat → List (List B) → Table → List B → List B → Except Nat (Table × List B)
   | 0, _, _, _, _ => .error errFuel
   | f + 1, stack, table, virt, content =>
-    let phys := e.root ++ virt
-    match loop e f (phys :: stack) phys { table := table, out := lineMarker 0 phys } (stripAll content) true 1 with
+    match loop e f ((e.root ++ virt) :: stack) (e.root ++ virt) { table := table, out := lineMarker 0 (e.root ++ virt) } (stripAll content) true 1 with
     | .error c => .error c
     | .ok st => if st.conds.isEmpty then .ok (st.table, st.out) else .error errMissingEndif
 
-/-- the main loop; `bol`: only blanks since the beginning of the line; `ln`: the reader's line counter -/
+/-- the main loop: `step` until the text is used up -/
 def loop (e : Env) : Nat → List (List B) → List B → St → List Ch → Bool → Nat → Except Nat St
   | 0, _, _, _, _, _, _ => .error errFuel
   | _ + 1, _, _, st, [], _, _ => .ok st
-  | f + 1, stack, phys, st, (c, l) :: rest, bol, ln =>
+  | f + 1, stack, phys, st, ch :: rest, bol, ln =>
+    match step e f stack phys st ch rest bol ln with
+    | .error c => .error c
+    | .ok (st', rest', bol', ln') => loop e f stack phys st' rest' bol' ln'
+
+/-- one token of the file, or one directive -/
+def step (e : Env) : Nat → List (List B) → List B → St → Ch → List Ch → Bool → Nat → Except Nat (St × Pos)
+  | 0, _, _, _, _, _, _, _ => .error errFuel
+  | f + 1, stack, phys, st, (c, l), rest, bol, _ =>
     if c == quote then
       let p := takeString rest
-      loop e f stack phys (st.emit (c :: p.1)) p.2 false (lastLine ((c, l) :: rest.take p.1.length) l)
-    else if c == nl then loop e f stack phys (st.emitAlways [nl]) rest true l
+      .ok (st.emit (c :: p.1), p.2, false, lastLine ((c, l) :: rest.take p.1.length) l)
+    else if c == nl then .ok (st.emitAlways [nl], rest, true, l)
     else if c == 35 && bol then
       directive e f stack phys st rest l
     else if isWordChar c then
       let w := takeWord (c :: txt rest)
       let wl := lastLine (((c, l) :: rest).take w.1.length) l
-      if !st.writing then loop e f stack phys st (rest.drop (w.1.length - 1)) false wl
+      if !st.writing then .ok (st, rest.drop (w.1.length - 1), false, wl)
       else match st.table.find w.1 with
-        | none => loop e f stack phys (st.emit w.1) (rest.drop (w.1.length - 1)) false wl
+        | none => .ok (st.emit w.1, rest.drop (w.1.length - 1), false, wl)
         | some m =>
           match expandCall st.table { line := wl, file := phys } f [] m w.2 [] with
           | .error code => .error code
           | .ok (v, r) =>
-            let consumed := ((c, l) :: rest).take (((c, l) :: rest).length - r.length)
-            loop e f stack phys (st.emit v) (((c, l) :: rest).drop (((c, l) :: rest).length - r.length)) false (lastLine consumed wl)
-    else loop e f stack phys (st.emit [c]) rest (bol && isBlank c) l
+            .ok (st.emit v, ((c, l) :: rest).drop (((c, l) :: rest).length - r.length), false,
+                 lastLine (((c, l) :: rest).take (((c, l) :: rest).length - r.length)) wl)
+    else .ok (st.emit [c], rest, bol && isBlank c, l)
 
 /-- `parse_ppinstruction`, behind the `#` -/
-def directive (e : Env) : Nat → List (List B) → List B → St → List Ch → Nat → Except Nat St
+def directive (e : Env) : Nat → List (List B) → List B → St → List Ch → Nat → Except Nat (St × Pos)
   | 0, _, _, _, _, _ => .error errFuel
   | f + 1, stack, phys, st, rest, ln =>
     let inst := upper ((txt rest).takeWhile isWordChar)
     let g := getLine (rest.drop inst.length) false [] ln
     let line := trim g.1
     let st1 := st.emitAlways [nl]
-    if inst == n!"IFDEF" then loop e f stack phys { st1 with conds := (st.table.find line).isSome :: st.conds } g.2.1 true g.2.2
-    else if inst == n!"IFNDEF" then loop e f stack phys { st1 with conds := (st.table.find line).isNone :: st.conds } g.2.1 true g.2.2
-    else if inst == n!"ELSE" then
+    let pos : Pos := (g.2.1, true, g.2.2)
+    match classify inst with
+    | .ifdef => .ok ({ st1 with conds := (st.table.find line).isSome :: st.conds }, pos)
+    | .ifndef => .ok ({ st1 with conds := (st.table.find line).isNone :: st.conds }, pos)
+    | .else_ =>
       match st.conds with
       | [] => .error errUnexpectedElse
-      | b :: cs => loop e f stack phys { st1 with conds := (!b) :: cs } g.2.1 true g.2.2
-    else if inst == n!"ENDIF" then
+      | b :: cs => .ok ({ st1 with conds := (!b) :: cs }, pos)
+    | .endif =>
       match st.conds with
       | [] => .error errUnexpectedEndif
-      | _ :: cs => loop e f stack phys { st1 with conds := cs } g.2.1 true g.2.2
-    else if !st.writing then loop e f stack phys st1 g.2.1 true g.2.2     -- no other directive has an effect in an inactive section
-    else if inst == n!"DEFINE" then loop e f stack phys { st1 with table := st.table.define (parseDefine line) } g.2.1 true g.2.2
-    else if inst == n!"UNDEF" then loop e f stack phys { st1 with table := st.table.undef line } g.2.1 true g.2.2
-    else if inst == n!"PRAGMA" then loop e f stack phys st1 g.2.1 true g.2.2
-    else if inst == n!"INCLUDE" then
-      let v := virtPath (includePath line)
-      match e.lookup v with
-      | none => .error errIncludeFailed
-      | some content =>
-        if stack.contains (e.root ++ v) then .error errRecursiveInclude
-        else match runFile e f stack st.table v content with
-          | .error code => .error code
-          | .ok (table, text) =>
-            loop e f stack phys
-              { st with table := table, out := st.out ++ lineMarker 1 (e.root ++ v) ++ text ++ [nl] ++ lineMarker (g.2.2 - 1) phys }
-              g.2.1 true g.2.2
-    else .error errUnknownInstruction
+      | _ :: cs => .ok ({ st1 with conds := cs }, pos)
+    | d =>
+      if !st.writing then .ok (st1, pos)     -- no other directive has an effect in an inactive section
+      else match d with
+      | .define => .ok ({ st1 with table := st.table.define (parseDefine line) }, pos)
+      | .undef => .ok ({ st1 with table := st.table.undef line }, pos)
+      | .pragma => .ok (st1, pos)
+      | .include =>
+        match e.lookup (virtPath (includePath line)) with
+        | none => .error errIncludeFailed
+        | some content =>
+          if stack.contains (e.root ++ virtPath (includePath line)) then .error errRecursiveInclude
+          else match runFile e f stack st.table (virtPath (includePath line)) content with
+            | .error code => .error code
+            | .ok (table, text) =>
+              .ok ({ st with table := table,
+                             out := st.out ++ lineMarker 1 (e.root ++ virtPath (includePath line)) ++ text ++ [nl] ++ lineMarker (g.2.2 - 1) phys }, pos)
+      | _ => .error errUnknownInstruction
 end
+
 
 /-- the macros every preprocessor instance starts with that have a fixed text -/
 def builtins : Table :=
